@@ -5,15 +5,20 @@
    of digit * base^position.  The lexeme shapes quantified over are exactly the documented patterns.
 
    Float literals: the stored double is atof(lexeme), and the literal is rejected exactly when that is
-   infinite.  That glibc's strtod is the correctly rounded value of the decimal is a libc contract in the
-   trusted base (validated differentially on every run against an independent correctly-rounded
-   conversion), not proved here: the float clause is therefore PARTIAL.
-
+   infinite (C08_float_token_partial, for any atof).  The decimal-to-binary conversion the model runs for atof
+   (FloatDec.b64_of_decimal, the model of glibc's strtod) is proved correctly rounded here: x * 2^t is rounded
+   half-even to 53 significant bits or to the denormal grid (C08_binary_rounding, with the decoding of the bit
+   pattern C08_pattern_value); a decimal d * 10^e with at most 800 significant digits goes through exactly one such
+   rounding - of the integer d * 5^e * 2^e, or for e < 0 of a quotient of at least 57 bits with a sticky bit,
+   which rounds like the exact d / 10^-e (C08_decimal_unfold, C08_decimal_negative).  Not proved: the exits for
+   |decimal exponent| > 400 and the sticky digit beyond 800 digits, and the lexeme-to-(digits, exponent) split of
+   strtod_dec; that glibc's strtod equals this model is tied by correspondence on every run (boundary and
+   midpoint literals, pygen/gen_text.py).
    History: before /repo commit 83af6da hex literals wider than 32/64 bits were truncated or saturated,
    L-suffixed decimals saturated, 010L was decimal, and 1e999 was stored as infinity (F11). *)
 From Coq Require Import List ZArith Bool.
 Import ListNotations.
-From LC Require Import Base BaseFacts Tree Fp Api ScanAction Tokens Lexer Parser LiteralFacts.
+From LC Require Import Base BaseFacts Tree Fp FloatDec Api ScanAction Tokens Lexer Parser LiteralFacts RoundSpec.
 Local Open Scope Z_scope.
 
 (* decimal and octal literals, with or without the L / LL suffix *)
@@ -107,3 +112,72 @@ Example C08_examples :
   lit [50; 49; 52; 55; 52; 56; 51; 54; 52; 56] AInteger = Some (TkInt64 2147483648) /\              (* 2^31 *)
   lit [45; 57; 50; 50; 51; 51; 55; 50; 48; 51; 54; 56; 53; 52; 55; 55; 53; 56; 48; 57] AInteger = None. (* -2^63-1 *)
 Proof. vm_compute. repeat split. Qed.
+
+(* ---- the decimal-to-binary conversion of the model is correctly rounded ---- *)
+(* round-half-even: within half a unit, even on a tie (unique) *)
+Theorem C08_rne_unique : forall a d r1 r2, 0 < d -> is_rne a d r1 -> is_rne a d r2 -> r1 = r2.
+Proof. exact is_rne_unique. Qed.
+Print Assumptions C08_rne_unique.
+
+(* x * 2^t (x > 0, magnitude inside the exits) is rounded half-even to a multiple of 2^u, u the exponent of the unit
+   in the last place of a 53-bit significand or -1074 (denormals); the result is the pattern encoding mant * 2^u,
+   or infinity when that is out of range *)
+Theorem C08_binary_rounding : forall x t, 0 < x ->
+  let n := Z.log2 x + 1 in
+  n + t <= 1025 -> -1080 <= n + t ->
+  let u := ulp_exp x t in
+  exists mant, rounded_at x t u mant /\ 0 <= mant <= two53 /\ (mant < two52 -> u = -1074) /\
+    b64_round_pos x t = (let bits := (u + 1074) * two52 + mant in if b64_inf_bits <=? bits then b64_inf_bits else bits).
+Proof. exact b64_round_pos_correct. Qed.
+Print Assumptions C08_binary_rounding.
+
+(* the pattern (u + 1074) * 2^52 + mant denotes mant * 2^u (significand and exponent fields decoded) *)
+Theorem C08_pattern_value : forall u mant,
+  -1074 <= u -> 0 <= mant <= two53 -> (mant < two52 -> u = -1074) ->
+  let bits := (u + 1074) * two52 + mant in
+  bits < b64_inf_bits ->
+  b64_m bits * 2 ^ (b64_e bits + 1074) = mant * 2 ^ (u + 1074).
+Proof. exact encode_value. Qed.
+Print Assumptions C08_pattern_value.
+
+(* what b64_of_decimal computes for at most 800 significant digits inside the exponent window: one rounding *)
+Theorem C08_decimal_unfold : forall (neg : bool) digits exp10,
+  let ds := drop_zeros digits in
+  ds <> [] -> skipn dec_max_digits ds = [] -> -400 <= lenZ ds + exp10 <= 400 ->
+  let sgn := if neg then two63 else 0 in
+  let d := dval ds in
+  b64_of_decimal neg digits exp10 =
+    sgn + (if 0 <=? exp10 then b64_round_pos (d * 5 ^ exp10) exp10
+           else let bq := 5 ^ (- exp10) in
+                let j := Z.max 0 (57 + Z.log2 bq - Z.log2 d) in
+                let N := d * 2 ^ j in
+                b64_round_pos (2 * (N / bq) + (if N mod bq =? 0 then 0 else 1)) (exp10 - j - 1)).
+Proof. exact b64_of_decimal_unfold. Qed.
+Print Assumptions C08_decimal_unfold.
+
+Theorem C08_decimal_nonneg_exact : forall e, 0 <= e -> 10 ^ e = 5 ^ e * 2 ^ e.
+Proof. exact pow10_split. Qed.
+
+(* negative decimal exponent -k: the significand is d / 10^k / 2^u rounded half-even - the sticky quotient loses
+   nothing *)
+Theorem C08_decimal_negative : forall d k, 0 < d -> 0 < k ->
+  let bq := 5 ^ k in
+  let j := Z.max 0 (57 + Z.log2 bq - Z.log2 d) in
+  let N := d * 2 ^ j in
+  let x := 2 * (N / bq) + (if N mod bq =? 0 then 0 else 1) in
+  let t := - k - j - 1 in
+  let n := Z.log2 x + 1 in
+  n + t <= 1025 -> -1080 <= n + t ->
+  let u := ulp_exp x t in
+  exists mant, rne_decimal d k u mant /\ 0 <= mant <= two53 /\ (mant < two52 -> u = -1074) /\
+    b64_round_pos x t = (let bits := (u + 1074) * two52 + mant in if b64_inf_bits <=? bits then b64_inf_bits else bits).
+Proof. exact decimal_neg_canonical. Qed.
+Print Assumptions C08_decimal_negative.
+
+(* evaluated: 0.1, the least denormal, below half of it, a tie, an overflow *)
+Example C08_decimal_examples :
+  b64_of_decimal false [1] (-1) = 4591870180066957722 /\ b64_of_decimal false [4; 9] (-325) = 1 /\
+  b64_of_decimal false [2; 4] (-325) = 0 /\
+  b64_of_decimal false [9;0;0;7;1;9;9;2;5;4;7;4;0;9;9;3] 0 = 4845873199050653696 /\
+  b64_of_decimal true [1; 7; 9; 7; 6; 9; 3; 1; 3; 4; 8; 6; 2; 3; 1; 5; 9] 292 = two63 + b64_inf_bits.
+Proof. exact decimal_examples. Qed.
